@@ -1,11 +1,15 @@
 import MJ.Model.Compile
 /-!
-# Model of the VM for the instructions `MJ.Compile` emits (C03 stage 2)
+# Model of the VM for the instructions `MJ.Compile` emits (C03)
 
-`vm/mod.rs: eval_impl` + `vm/context.rs` + `vm/loop_object.rs` for the instruction subset of the
-stage-2 fragment, lenient undefined behaviour, no auto-escaping: operand stack, frame stack
-(locals + optional loop state), capture stack, program counter.  `run` executes with a step budget;
-running out of steps is `Err.fuel`.
+`vm/mod.rs: eval_impl` + `vm/context.rs` + `vm/loop_object.rs` + `vm/macro_object.rs` for the
+instructions of the core fragment, lenient undefined behaviour, no auto-escaping: operand stack,
+frame stack (locals, optional loop state, the closure a frame owns / reads), capture stack, program
+counter, and the state-owned closures of macros (`Enclose` copies the current value of a free name
+into the closure of the declaring frame, every later store into that frame is duplicated into it, a
+macro's first frame reads it).  `step` is one instruction that is not a call; a call
+(`CallFunction`) runs the macro's code in a fresh context (`callF` / `run`, mutually recursive on a
+step budget; running out of steps is `Err.fuel`).
 
 Value-level operations are those of `MJ.Eval` (the VM and the reference semantics share the value
 model; what is independent is the control structure: jumps, frames, captures).
@@ -28,6 +32,11 @@ structure LoopSt where
 structure Frame where
   locals : Scope := []
   loop : Option LoopSt := none
+  /-- `Frame::closure`: the closure that receives a copy of every store into this frame (created by
+  the first `Enclose` executed in the frame) -/
+  closure : Option Nat := none
+  /-- `Frame::closure_context`: the closure the first frame of a macro call reads -/
+  closureCtx : Option Nat := none
   deriving Inhabited
 
 structure VmState where
@@ -36,25 +45,52 @@ structure VmState where
   frames : List Frame := [{}]
   /-- capture buffers, innermost first; the last one is the output of the template -/
   outs : List String := [""]
+  /-- `State::closures`: the closures of all macros declared so far -/
+  closures : List Scope := []
   deriving Inhabited
 
 def LoopSt.info (l : LoopSt) : LoopInfo :=
   { index0 := l.calls - 1, length := l.len, prev := l.prev, next := l.rest.head? }
 
+/-- what the locals and the loop variable of one frame answer for a name -/
+def frameLocal (f : Frame) (x : String) : Option Val :=
+  match assocGet x f.locals with
+  | some v => some v
+  | none =>
+    match f.loop with
+    | some l => if l.withLoopVar && x == "loop" then some (loopVal l.info) else none
+    | none => none
+
+/-- what a frame answers: its locals, `loop`, then the closure it reads -/
+def frameLookup (closures : List Scope) (f : Frame) (x : String) : Option Val :=
+  match frameLocal f x with
+  | some v => some v
+  | none => (f.closureCtx.bind fun c => closures[c]?).bind (assocGet x)
+
 /-- `Context::load` -/
-def lookupFrames (ctx : Scope) (x : String) : List Frame → Val
+def lookupFrames (ctx : Scope) (closures : List Scope) (x : String) : List Frame → Val
   | [] => (assocGet x ctx).getD .undef
   | f :: rest =>
-    match assocGet x f.locals with
+    match frameLookup closures f x with
     | some v => v
-    | none =>
-      match f.loop with
-      | some l => if l.withLoopVar && x == "loop" then loopVal l.info else lookupFrames ctx x rest
-      | none => lookupFrames ctx x rest
+    | none => lookupFrames ctx closures x rest
 
 def storeLocal (x : String) (v : Val) : List Frame → List Frame
   | [] => []
   | f :: rest => { f with locals := assocSet x v f.locals } :: rest
+
+/-- the closure the innermost frame owns -/
+def topClosure : List Frame → Option Nat
+  | [] => none
+  | f :: _ => f.closure
+
+/-- `Context::store` duplicates the value into the closure of the innermost frame -/
+def storeClosure (x : String) (v : Val) (frames : List Frame) (closures : List Scope) : List Scope :=
+  match topClosure frames with
+  | some c => (match closures[c]? with
+    | some m => closures.set c (assocSet x v m)
+    | none => closures)
+  | none => closures
 
 /-- `Context::next_loop_item`: advance the innermost loop; its frame's locals are cleared -/
 def nextLoopItem : List Frame → Option (Val × List Frame)
@@ -66,7 +102,8 @@ def nextLoopItem : List Frame → Option (Val × List Frame)
       | [] => none
       | x :: xs =>
         let l' : LoopSt := { l with calls := l.calls + 1, iterated := true, prev := l.cur, cur := some x, rest := xs }
-        some (x, { locals := [], loop := some l' } :: rest)
+        -- the locals are cleared and the frame gets a fresh closure: every iteration has its own macros
+        some (x, { f with locals := [], loop := some l', closure := none } :: rest)
     | none =>
       match nextLoopItem rest with
       | some (x, rest') => some (x, f :: rest')
@@ -96,6 +133,61 @@ def buildMap (items : List Val) : Res (List (String × Val)) :=
   | some ps => insertPairs ps []
   | none => .error .outOfFragment
 
+/-- the loop body of `Macro::prepare_args`: the value of the parameter `x.1` (number `x.2`) -/
+def prepareStep (pos : List Val) (kws : List (String × Val)) (x : String × Nat) (acc : Res (List Val)) :
+    Res (List Val) :=
+  match acc with
+  | .error e => .error e
+  | .ok vs => match pos[x.2]?, assocGet x.1 kws with
+    | some _, some _ => .error .tooManyArgs
+    | some a, none => .ok (a :: vs)
+    | none, some k => .ok (k :: vs)
+    | none, none => .ok (.undef :: vs)
+
+/-- `Macro::prepare_args`: positional / keyword arguments against the argument names; the hidden
+`caller` keyword is accepted by macros that reference it -/
+def prepareArgs (argSpec : List String) (callerRef : Bool) (args : List Val) : Res (List Val × Option Val) :=
+  let (pos, kw) : List Val × Option (List (String × Val)) := match args.getLast? with
+    | some (.kwargs kvs) => (args.dropLast, some kvs)
+    | _ => (args, none)
+  if pos.length > argSpec.length then .error .tooManyArgs
+  else
+    let kws := kw.getD []
+    let bound : Res (List Val) := (argSpec.zipIdx).foldr (prepareStep pos kws) (.ok [])
+    match bound with
+    | .error e => .error e
+    | .ok vs =>
+      if kws.any (fun p => !(argSpec.contains p.1) && !(callerRef && p.1 == "caller")) then .error .tooManyArgs
+      else .ok (vs, if callerRef then some ((assocGet "caller" kws).getD .undef) else none)
+
+/-- the argument names `BuildMacro` finds in the constant list of the declaration -/
+def specNames (spec : List Val) : List String :=
+  spec.filterMap fun v => match v with | .str x => some x | _ => none
+
+/-- the closure id `GetClosure` pushed (`undefined` = the frame owns none) -/
+def closureOf (cl : Val) : Option Nat :=
+  match cl with
+  | .int c => some c.toNat
+  | _ => none
+
+/-- `Instruction::Enclose`: the first enclosed name creates the closure of the innermost frame; a name
+that is not in the closure yet gets its current value (`Context::enclose`) -/
+def encloseStep (ctx : Scope) (x : String) (s : VmState) : Res VmState :=
+  match s.frames with
+  | [] => .error .outOfFragment
+  | f :: rest =>
+    let c := f.closure.getD s.closures.length
+    let frames := { f with closure := some c } :: rest
+    let closures := match f.closure with
+      | some _ => s.closures
+      | none => s.closures ++ [[]]
+    match closures[c]? with
+    | none => .error .outOfFragment
+    | some m =>
+      if (assocGet x m).isSome then .ok { s with pc := s.pc + 1, frames := frames, closures := closures }
+      else .ok { s with pc := s.pc + 1, frames := frames,
+                        closures := closures.set c (assocSet x (lookupFrames ctx closures x frames) m) }
+
 def binArith (op : BinOp) (s : VmState) : Res VmState :=
   match s.stack with
   | b :: a :: rest => (arith op a b).map fun v => { s with stack := v :: rest, pc := s.pc + 1 }
@@ -116,9 +208,10 @@ def step (ctx : Scope) (i : Instr) (s : VmState) : Res VmState :=
     | v :: rest => .ok (nxt { s with stack := rest, outs := appendOut (render v) s.outs })
     | _ => .error .outOfFragment
   | .storeLocal x => match s.stack with
-    | v :: rest => .ok (nxt { s with stack := rest, frames := storeLocal x v s.frames })
+    | v :: rest => .ok (nxt { s with stack := rest, frames := storeLocal x v s.frames,
+                                     closures := storeClosure x v s.frames s.closures })
     | _ => .error .outOfFragment
-  | .lookup x => .ok (nxt { s with stack := lookupFrames ctx x s.frames :: s.stack })
+  | .lookup x => .ok (nxt { s with stack := lookupFrames ctx s.closures x s.frames :: s.stack })
   | .getAttr n => match s.stack with
     | a :: rest => (getAttr a n).map fun v => nxt { s with stack := v :: rest }
     | _ => .error .outOfFragment
@@ -218,18 +311,76 @@ def step (ctx : Scope) (i : Instr) (s : VmState) : Res VmState :=
   | .swap => match s.stack with
     | a :: b :: rest => .ok (nxt { s with stack := b :: a :: rest })
     | _ => .error .outOfFragment
-  -- macros and calls are executed by the extended model `MJ.VmM`
-  | _ => .error .outOfFragment
+  | .isUndefined => match s.stack with
+    | a :: rest => .ok (nxt { s with stack := .bool (match a with | .undef => true | _ => false) :: rest })
+    | _ => .error .outOfFragment
+  | .enclose x => encloseStep ctx x s
+  | .getClosure => .ok (nxt { s with stack := (match topClosure s.frames with | some c => .int c | none => .undef) :: s.stack })
+  | .buildMacro name offset flags => match s.stack with
+    | .list spec :: cl :: rest =>
+      .ok (nxt { s with stack := .vmMacro name (specNames spec) offset (closureOf cl) (flags / 2 % 2 == 1) :: rest })
+    | _ => .error .outOfFragment
+  | .buildKwargs n => match popN (2 * n) s.stack with
+    | some (items, rest) => match pairUp items with
+      | some ps => (insertPairs ps []).map fun m => nxt { s with stack := .kwargs m :: rest }
+      | none => .error .outOfFragment
+    | none => .error .outOfFragment
+  -- calls are not single steps: see `stepF` / `callF`
+  | .callFunction _ _ => .error .outOfFragment
+  | .callObject _ => .error .outOfFragment
+  | .return_ => .error .outOfFragment
 
-/-- run until the program counter leaves the code -/
+/-- the state in which the code of a macro starts (`Macro::call` + `eval_macro`): a fresh context —
+base frame, then the frame that reads the macro's closure and holds `caller` —, the argument values
+on the operand stack (last one on top), output captured into a string -/
+def calleeState (offset : Nat) (closure : Option Nat) (caller : Option Val) (vals : List Val)
+    (closures : List Scope) : VmState :=
+  { pc := offset, stack := vals.reverse,
+    frames := [{ closureCtx := closure, locals := match caller with | some c => [("caller", c)] | none => [] }, {}],
+    outs := [""], closures := closures }
+
+mutual
+
+/-- one instruction, calls included -/
+def stepF (ctx : Scope) (code : List Instr) : Nat → Instr → VmState → Res VmState
+  | 0, _, _ => .error .fuel
+  | fuel + 1, i, s =>
+    match i with
+    | .callFunction name argc => match popN argc s.stack with
+      | some (args, rest) =>
+        match callF ctx code fuel (lookupFrames ctx s.closures name s.frames) args s.closures with
+        | .ok r => .ok { s with pc := s.pc + 1, stack := r.1 :: rest, closures := r.2 }
+        | .error e => .error e
+      | none => .error .outOfFragment
+    | i => step ctx i s
+
+/-- `Macro::call`: bind the arguments, run the macro's code until `Return`, the captured output is
+the result; the closures created meanwhile stay -/
+def callF (ctx : Scope) (code : List Instr) : Nat → Val → List Val → List Scope → Res (Val × List Scope)
+  | 0, _, _, _ => .error .fuel
+  | fuel + 1, f, args, closures =>
+    match f with
+    | .vmMacro _ spec offset closure callerRef =>
+      match prepareArgs spec callerRef args with
+      | .error e => .error e
+      | .ok (vals, caller) =>
+        match run ctx code fuel (calleeState offset closure caller vals closures) with
+        | .ok s' => .ok (.str (s'.outs.getLast?.getD ""), s'.closures)
+        | .error e => .error e
+    | _ => .error .invalidOp
+
+/-- run until the program counter leaves the code or reaches a `Return` -/
 def run (ctx : Scope) (code : List Instr) : Nat → VmState → Res VmState
   | 0, _ => .error .fuel
   | fuel + 1, s =>
     match code[s.pc]? with
     | none => .ok s
-    | some i => match step ctx i s with
+    | some .return_ => .ok s
+    | some i => match stepF ctx code fuel i s with
       | .ok s' => run ctx code fuel s'
       | .error e => .error e
+
+end
 
 /-! ## Discarding output
 
@@ -251,7 +402,8 @@ def runD (ctx : Scope) (code : List Instr) : Nat → VmState → Res VmState
   | fuel + 1, s =>
     match code[s.pc]? with
     | none => .ok s
-    | some i => match step ctx i s with
+    | some .return_ => .ok s
+    | some i => match stepF ctx code fuel i s with
       | .ok s' => runD ctx code fuel (eraseBottom s')
       | .error e => .error e
 
